@@ -50,6 +50,14 @@ pub mod timing {
         emit_batcher::verif::set_delay_divisor(DIVISOR);
     }
 
+    /// Called at the start of EVERY OTLP case: other engines living in the same binary (E2 pins the
+    /// divisor to 1 per case, E7 to 4000, the file e2e to 1/2000) run before and after these generators.
+    pub fn ensure() {
+        if emit_batcher::verif::delay_divisor() != DIVISOR {
+            emit_batcher::verif::set_delay_divisor(DIVISOR);
+        }
+    }
+
     /// total back-off before the `n`-th retry has been sent
     pub fn backoff_total_ms(n: u32) -> u64 {
         let mut cur = 0u64;
@@ -412,7 +420,37 @@ impl Drop for Permit {
     }
 }
 
+/// A `Scenario` that only says what `build` needs: wire, gzip, which signals.
+fn config_only(wire: Wire, gzip: bool, signals: [bool; 3]) -> Scenario {
+    let stream = |on: bool| on.then(|| Stream { sizes_kib: vec![], faults: vec![] });
+    Scenario {
+        wire,
+        gzip,
+        streams: [stream(signals[0]), stream(signals[1]), stream(signals[2])],
+        outage: None,
+        early_flush: false,
+        ending: Ending::Flush,
+    }
+}
+
+fn start_collector(wire: Wire) -> Result<Collector, String> {
+    let c = Collector::try_start()?;
+    if wire == Wire::Grpc {
+        c.ensure_grpc()?;
+    }
+    c.keep_payloads(false);
+    Ok(c)
+}
+
+fn next_base() -> u64 {
+    CASE_SEQ.fetch_add(1, std::sync::atomic::Ordering::SeqCst) * ID_SPACE
+}
+
+pub mod e2e;
+pub mod exhaust;
+
 pub fn run(sc: &Scenario) -> Observed {
+    timing::ensure();
     let _permit = Permit::acquire();
     let case_started = std::time::Instant::now();
     let started = Collector::try_start().and_then(|c| {
